@@ -2,6 +2,12 @@
 from ._structure import run_structure
 
 META = ("other",
+        "C14.R1 grammar refinement - the token language each statement renderer can write (NFA built from the linked template "
+        "IR: guards free, but correlated boolean flags, shared first-flags, loop-index guards, constant enum arguments, "
+        "variants excluded by a calling match and fold decision tables tracked) is included in the dialect grammar skeleton "
+        "specs/<dialect>.ebnf; a counterexample is a shortest token string with the emission that leaves the grammar; C14.R6 "
+        "hook discipline - inner renderers of overridable backend hooks (specs/hooks.json) are called only from implementations "
+        "of the hook;  "
         "Structural conditions of the MySQL and PostgreSQL schema renderers: C14.R2 type tables - every ColumnType variant is a "
         "type the dialect defines, its parameters forwarded in order, UNSIGNED exactly on the unsigned variants, unsupported "
         "types refused; C14.R3 separator discipline (incl. the hand-managed commas of ALTER COLUMN, tabulated over all "
